@@ -120,7 +120,25 @@ func runAcceptSeq(seq []string) (trace string, wall time.Duration, err error) {
 	init := make(chan struct{})
 	ret := make(chan error, 1)
 	t0 := time.Now()
-	go func() { ret <- s.Serve(l, init) }()
+	// the listener reaches Serve as the pointer it is, or wrapped BY VALUE in a struct with a func field: a net.Listener need
+	// not be comparable, and nothing Serve does with it may depend on comparing it
+	var given net.Listener = l
+	if len(strings.Join(seq, ""))%2 == 1 {
+		given = valueListener{Listener: l, hook: func() {}}
+	}
+	go func() {
+		defer func() {
+			if p := recover(); p != nil {
+				ret <- fmt.Errorf("Serve panicked: %v", p)
+				select {
+				case <-init:
+				default:
+					close(init)
+				}
+			}
+		}()
+		ret <- s.Serve(given, init)
+	}()
 	<-init
 	var serveErr error
 	returned := false
@@ -362,4 +380,10 @@ func runC17(r *Result, d *drv.Driver, tier string, seed int64, replay string) {
 			r.find(Finding{Kind: "violation", What: "Serve retried sooner than the back-off it logged", Input: key, Expect: fmt.Sprintf(">= %dms", total), Actual: results[i].wall.String()})
 		}
 	}
+}
+
+// valueListener: a net.Listener that is a struct VALUE with a func field (comparing two of them panics at run time)
+type valueListener struct {
+	net.Listener
+	hook func()
 }
